@@ -16,7 +16,7 @@ def units(tier):
         E("vp_main_roundtrip_pod", "int,double,struct,byte round trip; WriteSizeCalculator; end()", uw=10),
         E("vp_main_roundtrip_vec0", "std::vector<int> size 0 round trip", uw=10),
         E("vp_main_roundtrip_vec1", "std::vector<int> size 1 round trip", uw=10),
-    ] + ([] if q else [E("vp_main_roundtrip_vec2", "std::vector<int> size 2 round trip", uw=10)]) + [
+    ] + [
         E("vp_main_roundtrip_array0", "AbstractArray<int> size 0: size word + getView read back", uw=10),
         E("vp_main_roundtrip_array1", "AbstractArray<int> size 1", uw=10),
         E("vp_main_roundtrip_array2", "AbstractArray<int> size 2", uw=10),
@@ -32,6 +32,8 @@ def units(tier):
                      stubs=["operator new/delete = malloc/free model", "std::runtime_error ctor/dtor: type tag only"]),
             PathUnit("stream_path", "harness/C15_stream.cpp", [
                 PathEntry("vp_main_roundtrip_vecstr", desc="vector<string> of 0-3 strings, each of length 0-2 or 17, every byte value: byte count, round trip through BufferWriter -> BufferReader, stale target contents replaced, consumed exactly", wall=600),
+                PathEntry("vp_main_roundtrip_vec2", desc="std::vector<int> of 2 symbolic elements round trip (no verdict under cbmc within 1800 s)", wall=600),
+                PathEntry("vp_main_roundtrip_vec3", desc="std::vector<int> of 3 symbolic elements round trip", wall=600),
                 PathEntry("vp_main_roundtrip_str15", desc="std::string of 15 arbitrary bytes (largest small-string) round trip", wall=600),
                 PathEntry("vp_main_roundtrip_str16", desc="std::string of 16 arbitrary bytes (first heap string) round trip", wall=600),
                 PathEntry("vp_main_roundtrip_str33", desc="std::string of 33 arbitrary bytes round trip", wall=600)],
